@@ -253,41 +253,41 @@ def r2_temperature(ctx):
               "annealing-off configurations still change the temperature", construct="annealing-off early return (initialise)")
 
 
-def r3_std(ctx):
-    ctx.rule("C19.R3", "proposal scale: gated by the history length, (1-f) below the band, (1+f) above, f in (0,1); no other writer", 6)
+def r3_std(ctx, rid="C19.R3", title=None):
+    ctx.rule(rid, title or "proposal scale: gated by the history length, (1-f) below the band, (1+f) above, f in (0,1); no other writer", 6)
     ix = ctx.ix
     G = "leaspy.samplers.gibbs"
-    upd = ix.func(G, "GibbsSamplerMixin._update_std", "C19.R3")
+    upd = ix.func(G, "GibbsSamplerMixin._update_std", rid)
     cfg = CFG(upd.node)
     inl = Inliner(upd.node)
     writes = [(n, st) for n, st in cfg.stmt.items() if isinstance(st, (ast.Assign, ast.AugAssign)) and any(U(t).startswith("self.std") for t in store_targets(st))]
     if len(writes) < 2:
-        ctx.violation("C19.R3", upd, upd.node, "the adaptive scale update no longer rescales both sides of the band", construct="def _update_std")
+        ctx.violation(rid, upd, upd.node, "the adaptive scale update no longer rescales both sides of the band", construct="def _update_std")
     for n, st in writes:
         gs = [(U(cfg.stmt[h].test), lab) for h, lab in cfg.if_guards(n)]
         gated = any(t == "self._counter % self.acceptation_history_length == 0" and lab for t, lab in gs)
-        ctx.check(gated, "C19.R3", upd, st, "only when counter % acceptation_history_length == 0", "proposal scale changes outside multiples of the acceptance-history length", construct=U(st) + " [gate]")
+        ctx.check(gated, rid, upd, st, "only when counter % acceptation_history_length == 0", "proposal scale changes outside multiples of the acceptance-history length", construct=U(st) + " [gate]")
         if not isinstance(st, ast.AugAssign) or not isinstance(st.op, ast.Mult):
-            ctx.violation("C19.R3", upd, st, "proposal scale is not rescaled multiplicatively")
+            ctx.violation(rid, upd, st, "proposal scale is not rescaled multiplicatively")
             continue
         idx = st.target.slice if isinstance(st.target, ast.Subscript) else None
         mask = inl.text(idx) if idx is not None else ""
         fac = U(st.value)
         if "<" in mask and "lower_bound" in mask:
-            ctx.check(fac in ("1 - self._adaptive_std_factor", "1.0 - self._adaptive_std_factor"), "C19.R3", upd, st, "rate below the band -> scale * (1 - f)",
+            ctx.check(fac in ("1 - self._adaptive_std_factor", "1.0 - self._adaptive_std_factor"), rid, upd, st, "rate below the band -> scale * (1 - f)",
                       f"blocks whose acceptance rate is below the band are multiplied by `{fac}` (documented: 1 - factor)")
         elif ">" in mask and "upper_bound" in mask:
-            ctx.check(fac in ("1 + self._adaptive_std_factor", "1.0 + self._adaptive_std_factor"), "C19.R3", upd, st, "rate above the band -> scale * (1 + f)",
+            ctx.check(fac in ("1 + self._adaptive_std_factor", "1.0 + self._adaptive_std_factor"), rid, upd, st, "rate above the band -> scale * (1 + f)",
                       f"blocks whose acceptance rate is above the band are multiplied by `{fac}` (documented: 1 + factor)")
         else:
-            ctx.violation("C19.R3", upd, st, f"scale rescaled for `{mask[:80]}`: not a block whose mean acceptance rate left the target band")
-        ctx.check("self.acceptation_history.mean(dim=0)" in mask, "C19.R3", upd, st, "band test on the mean acceptance over the window", "band test is not on the mean acceptance rate over the history window",
+            ctx.violation(rid, upd, st, f"scale rescaled for `{mask[:80]}`: not a block whose mean acceptance rate left the target band")
+        ctx.check("self.acceptation_history.mean(dim=0)" in mask, rid, upd, st, "band test on the mean acceptance over the window", "band test is not on the mean acceptance rate over the history window",
                   construct=U(st) + " [mean rate]")
     cnt = [st for st in statements(upd.node) if isinstance(st, ast.AugAssign) and U(st.target) == "self._counter"]
-    ctx.check(len(cnt) == 1 and isinstance(cnt[0].op, ast.Add) and U(cnt[0].value) == "1" and cfg.all_paths_pass(cfg.entry, [cfg.node_of(cnt[0])]), "C19.R3", upd, cnt[0] if cnt else upd.node,
+    ctx.check(len(cnt) == 1 and isinstance(cnt[0].op, ast.Add) and U(cnt[0].value) == "1" and cfg.all_paths_pass(cfg.entry, [cfg.node_of(cnt[0])]), rid, upd, cnt[0] if cnt else upd.node,
               "counter incremented once per call", "the call counter is not incremented exactly once per call")
     # factor in (0,1)
-    sf = ix.func(G, "GibbsSamplerMixin._set_adaptive_std_factor", "C19.R3")
+    sf = ix.func(G, "GibbsSamplerMixin._set_adaptive_std_factor", rid)
     scfg = CFG(sf.node)
     p = [a.arg for a in sf.node.args.args][1]
     ok = False
@@ -301,7 +301,7 @@ def r3_std(ctx):
                 asg = [n for n, st in scfg.stmt.items() if isinstance(st, ast.Assign) and U(st.targets[0]) == "self._adaptive_std_factor"]
                 if asg and all(scfg.dominates(h, a) for a in asg) and all(U(scfg.stmt[a].value) == p for a in asg):
                     ok = True
-    ctx.check(ok, "C19.R3", sf, sf.node, "factor refused outside (0,1): both multipliers positive", "the adaptive factor is not restricted to (0,1): a multiplier could be <= 0 (scale not positive)",
+    ctx.check(ok, rid, sf, sf.node, "factor refused outside (0,1): both multipliers positive", "the adaptive factor is not restricted to (0,1): a multiplier could be <= 0 (scale not positive)",
               construct="factor in (0,1)")
     # the bounds validation: 0 < lower < upper < 1
     # other writers of .std in the samplers package
@@ -318,9 +318,9 @@ def r3_std(ctx):
                         if f.name == "__init__" and f.mod == G:
                             zeroing = isinstance(t, ast.Subscript) and U(st.value) == "0" and "mask" in U(t.slice)
                             initial = isinstance(t, ast.Attribute)
-                            ctx.check(zeroing or initial, "C19.R3", f, st, "construction-time write (initial scale / documented masked zeroing)", "unexpected write of the proposal scale in a constructor")
+                            ctx.check(zeroing or initial, rid, f, st, "construction-time write (initial scale / documented masked zeroing)", "unexpected write of the proposal scale in a constructor")
                         else:
-                            ctx.violation("C19.R3", f, st, "the proposal scale is written outside _update_std and construction")
+                            ctx.violation(rid, f, st, "the proposal scale is written outside _update_std and construction")
 
 
 def r5_temperature_updated_every_iteration(ctx):
